@@ -26,8 +26,9 @@ def rel_check(prop, prefixes, fams, rels, tier, sample=None, text_rule=None, ass
             groups.setdefault((s["st"]["fam"], s["rs"]["rel"], s["rs"].get("route", "")), []).append(s)
         for g, lst in sorted(groups.items()):
             n = sample.get(g[2] or g[1], sample.get(g[0]))
-            if n is not None and len(lst) > n and tier == "quick":
-                lst = rng.sample(lst, n)
+            cap = None if n is None else (n if tier == "quick" else 20 * n)      # the thorough tier takes a 20 times larger sample
+            if cap is not None and len(lst) > cap:
+                lst = rng.sample(lst, cap)
             keep += lst
         sts = keep
     jobs = [("relations", s, set(), i + 1) for i, s in enumerate(sts)]
@@ -67,6 +68,6 @@ def rel_check(prop, prefixes, fams, rels, tier, sample=None, text_rule=None, ass
                                  "run on the real solvers and every requested point gives one Rel event whose expected relation TLC computes from the tables "
                                  "of spec/Relations.tla; distinct = (family, relation, route, parameter set)"),
            "pairs": len(sts), "rel_events": len(events), "pairs_by_kind": kinds, "solver_raised": len(errors),
-           "failed_clauses_this_property": hits, "known_findings_hit": verdict.known, "exhaustive": not sample or tier == "thorough"}
+           "failed_clauses_this_property": hits, "known_findings_hit": verdict.known, "exhaustive": not sample}
     core.write_evidence(prop, tier, "model_checking", cov, time.time() - t0, len(verdict.violations), assumptions)
     return rc
